@@ -33,7 +33,31 @@ static void run_case(std::ostream& os, uint64_t s0, long long id, const std::str
   guarded(os, what, 120, [&](std::ostream& o) { run_case_body(o, s0, id, fam, S, C, emb, npts, cfg, reunion, nexec); });
   nexec += ((cfg == "lite" || cfg == "batchlite") ? 16 : 64) * (cfg == "notree" ? 1 : 2);   // executions happen in the child; count nominally
 }
-static bool g_gpcert = false; static std::vector<int> g_cts, g_frs;
+static bool g_gpcert = false, g_xtra = false; static std::vector<int> g_cts, g_frs;
+// small extra subject triangles, far to the right of the input, one vertex of each placed k units (|k| <= 9) above / below the y of a
+// crossing of two embedded input edges: unrelated geometry that puts a scanline right next to an intersection point
+static void add_extras(Rng& pr, const Paths64& S, const Paths64& C, const Emb& emb, Paths64& ES, std::vector<std::vector<long long>>& boxes) {
+  if (emb.m < 16) return;
+  Paths64 all = S; all.insert(all.end(), C.begin(), C.end());
+  int64_t bbR = -(1 << 30); for (auto& p : all) for (auto& q : p) bbR = std::max(bbR, q.x);
+  auto E = tag_edges(all); std::vector<std::pair<i128, i128>> ys;   // crossing y as num/den at lattice level
+  for (size_t i = 0; i < E.size(); ++i) for (size_t j = i + 1; j < E.size(); ++j) if (proper_cross(E[i], E[j])) {
+    const Point64 &a = E[i].a, &b = E[i].b, &c = E[j].a, &d = E[j].b;
+    i128 den = (i128)(b.x - a.x) * (d.y - c.y) - (i128)(b.y - a.y) * (d.x - c.x), num = (i128)(c.x - a.x) * (d.y - c.y) - (i128)(c.y - a.y) * (d.x - c.x);
+    if (den < 0) { den = -den; num = -num; }
+    ys.push_back({(i128)a.y * den + (i128)(b.y - a.y) * num, den}); }
+  for (int t = 0; t < 3 && !ys.empty(); ++t) {
+    auto yc = ys[pr.next() % ys.size()];
+    // embedded y of the crossing: m * (num/den) + ty, floored; then k units off
+    i128 ye = ((i128)emb.m * yc.first) / yc.second + emb.ty; int64_t yk = (int64_t)ye + pr.range(-9, 9);
+    int64_t lx = bbR + 6 + 12 * t; bool up = pr.coin();
+    int64_t X0 = emb.m * lx + emb.tx, w = emb.m * 2, h = emb.m * 3;
+    Path64 tri = up ? Path64{{X0, yk + h}, {X0 + w, yk}, {X0 + 2 * w, yk + h - emb.m}} : Path64{{X0, yk - h}, {X0 + 2 * w, yk - h + emb.m}, {X0 + w, yk}};
+    ES.push_back(tri);
+    int64_t yl = floordiv(yk - emb.ty, emb.m);
+    boxes.push_back({lx - 1, yl - 5, lx + 5, yl + 6});
+  }
+}
 static void run_case_body(std::ostream& os, uint64_t s0, long long id, const std::string& fam, const Paths64& S, const Paths64& C,
                      const Emb& emb, int npts, const std::string& cfg, bool reunion, long long& nexec) {
   Paths64 all = S; all.insert(all.end(), C.begin(), C.end());
@@ -42,8 +66,10 @@ static void run_case_body(std::ostream& os, uint64_t s0, long long id, const std
   int ps = 1; std::vector<Point64> pts = sample_pts(pr, all, rect, npts, ps);
   Ev ce("Case"); ce.kn("id", id).ks("fam", fam).kn("emb", emb.id).kn("ps", ps).kv("subj", jpaths(S)).kv("clip", jpaths(C)).kv("pts", jpath(pts));
   if (g_gpcert) ce.kn("gpcert", gp_native(all, 3) ? 1 : 0);
-  os << ce.str() << "\n";
   Paths64 ES = emb_paths(emb, S), EC = emb_paths(emb, C), none;
+  std::vector<std::vector<long long>> boxes;
+  if (g_xtra && !rect) { add_extras(pr, S, C, emb, ES, boxes); if (!boxes.empty()) ce.kv("extra", jarr(boxes.begin(), boxes.end(), [](const std::vector<long long>& b) { return jints(b); })); }
+  os << ce.str() << "\n";
   OutReg reg; reg.emb = &emb; reg.pts = &pts; reg.ps = ps; reg.os = &os;
   std::set<int> reunioned;
   std::vector<int> cts = {1, 2, 3, 4}, frs = {0, 1, 2, 3}, pcs = {0, 1}, rss = {0, 1};
@@ -100,7 +126,7 @@ static int cmd_bool(const Args& a) {
   const int64_t mul = argi(a, "mul", 1);
   auto emit = [&](Paths64 S, Paths64 C) { if (mul != 1) { for (auto* ps : {&S, &C}) for (auto& p : *ps) for (auto& q : p) { q.x *= mul; q.y *= mul; } } for (long long e : embs) run_case(os, s0, ++ncase, fam, S, C, emb_table()[e], npts, cfg, reunion, nexec); };
   Paths64 S, C;
-  g_gpcert = argi(a, "gpcert", 0) != 0;
+  g_gpcert = argi(a, "gpcert", 0) != 0; g_xtra = argi(a, "xtra", 0) != 0;
   for (long long v : argl(a, "cts", "")) g_cts.push_back((int)v); for (long long v : argl(a, "frs", "")) g_frs.push_back((int)v);
   if (fam == "gps") { const int64_t off = argi(a, "off", 0);   // off: shift the lattice (negative coordinates: truncation towards zero behaves differently)
     for (long long i = 0; i < n; ++i) if (gen_gps(r, R, (int)argi(a, "maxpaths", 2), (int)argi(a, "maxv", 6), S, C)) { if (off) for (auto* ps : {&S, &C}) for (auto& p : *ps) for (auto& q : p) { q.x += off; q.y += off; } emit(S, C); } }
